@@ -14,6 +14,8 @@ from ..util import (has_call, find_calls, assigned_value, const_str, unparse, kw
 from .. import mutate as M
 from . import c03
 
+TECHNIQUE = 'static analysis: CFG path rules with exception edges (every exit of a worker/loader posts its sentinel; clean-up on all paths), callee no-raise summaries, role-resolved queue protocol, position of the per-child limiter'
+
 EXPLANATION = ("Protocol rules over Multiprocessor.filter, its two completion callbacks, QueueSource/QueueSink and "
                "ProcessLine/ThreadLine: every value written to a poison-terminated queue is either the pill at a "
                "designated site or comes from an encoder whose range excludes the pill; pills are written n_procs times "
